@@ -281,11 +281,12 @@ class PandasCheckBackend(BaseCheckBackend):
             cases = select_failure_cases[col].rename("failure_case").dropna()
             if len(cases) == 0:
                 continue
+            cases_frame = cases.to_frame().assign(column=col)
+            if isinstance(cases_frame.index, pd.MultiIndex):
+                # one "index" entry per row: the tuple of level values
+                cases_frame.index = cases_frame.index.to_flat_index()
             failure_cases_list.append(
-                cases.to_frame()
-                .assign(column=col)
-                .rename_axis("index")
-                .reset_index()
+                cases_frame.rename_axis("index").reset_index()
             )
 
         if failure_cases_list:
